@@ -20,7 +20,7 @@ PLAIN_SPELLINGS = [
     '.inf', '-.inf', '.nan', '+.INF', '.NaN', '1.', '.5', '1e3', '1E-2', '1.5', '-0.0', '6.02e+23',
     'true', 'True', 'FALSE', 'yes', 'no', 'on', 'null', '~', '', 'Null',
     'abc', 'a b', 'x_y', '2001-02-03', '1.2.3', 'trueish', '1e', '0x', '"quoted"', "'single'",
-    '"12"', '"true"', '"null"']
+    '"12"', '"true"', '"null"', '=', '<<']
 PY_VALUES = ['s:abc', 's:', 's:true', 's:12', 's:a b', 's:héllo', 's:null', 'i:0', 'i:3', 'i:-7',
              'i:123456789012345678901', 'f:1.5', 'f:0.0', 'f:-0.0', 'f:inf', 'f:-inf', 'f:nan',
              'f:1e300', 'f:1e-07', 'f:3.0', 'b:true', 'b:false', 'n:']
@@ -282,8 +282,11 @@ class NodeModel(Engine):
         keys = KEYS
 
         def scalars():
-            return st.builds(lambda t: {'t': 's', 'v': t, 'q': False, 'tag': None},
-                             st.sampled_from(PLAIN_SPELLINGS))
+            # (other core-schema tags too: !!binary; plain '=' and '<<' resolve to
+            # the value and merge tags)
+            return st.builds(lambda t, tag: {'t': 's', 'v': t, 'q': False, 'tag': tag},
+                             st.sampled_from(PLAIN_SPELLINGS),
+                             st.sampled_from([None] * 14 + ['!!binary', '!!str']))
 
         def trees(depth):
             if depth <= 0:
@@ -291,10 +294,12 @@ class NodeModel(Engine):
             sub = trees(depth - 1)
             return st.one_of(
                 scalars(), scalars(),
-                st.builds(lambda xs: {'t': 'seq', 'v': xs, 'tag': None}, st.lists(sub, max_size=3)),
-                st.builds(lambda ks, vs: {'t': 'map', 'tag': None,
-                                          'v': [[U.S(k), v] for k, v in zip(ks, vs)]},
-                          st.permutations(keys), st.lists(sub, max_size=4)))
+                st.builds(lambda xs, tag: {'t': 'seq', 'v': xs, 'tag': tag}, st.lists(sub, max_size=3),
+                          st.sampled_from([None] * 12 + ['!!omap', '!!pairs'])),
+                st.builds(lambda ks, vs, tag: {'t': 'map', 'tag': tag,
+                                               'v': [[U.S(k), v] for k, v in zip(ks, vs)]},
+                          st.permutations(keys), st.lists(sub, max_size=4),
+                          st.sampled_from([None] * 12 + ['!!set'])))
 
         opt = st.tuples(st.integers(0, len(OP_TABLE) - 1), st.integers(0, 11),
                         st.integers(0, 63), st.integers(0, 255))
